@@ -43,7 +43,7 @@ def r1_tail_call_handler(ctx):
               "tail-call handler reaches frame-pushing functions: %s" % sorted(pushers))
     errb = err_blocks(b) | diverging_blocks(b)
     trunc = b.calls_to("Executor::truncate_locals")
-    ctx.floor(R, "truncate_locals calls in handle_tail_call", len(trunc), 2)
+    ctx.floor(R, "truncate_locals calls in handle_tail_call", len(trunc), 1)
     tblocks = [bi for bi, _t in trunc]
     # every Ok path passes a truncate
     bad = explore(b, [0], avoid=tblocks, stop=errb, want="return")
@@ -80,7 +80,7 @@ def r1_tail_call_handler(ctx):
               "truncate_locals targets changed: %s" % got, b.loc(tblocks[0]))
     # frame replacement with the same locals_base; Frame::new results are only stored through last_mut()
     news = b.calls_to("process::Frame::new")
-    ctx.floor(R, "Frame::new calls in handle_tail_call", len(news), 2)
+    ctx.floor(R, "Frame::new calls in handle_tail_call", len(news), 1)
     for i, (bi, t) in enumerate(news):
         c = fld.canon_op(t["args"][1])
         fields = [e for e in (c[1] if c else ()) if e[0] == "f"]
@@ -196,9 +196,7 @@ def r3_heap_bounded(ctx):
 
 
 def run(ctx):
-    r1_tail_call_handler(ctx)
-    r2_strip_keeps_tail_position(ctx)
-    r3_heap_bounded(ctx)
+    ctx.run_rules([r1_tail_call_handler, r2_strip_keeps_tail_position, r3_heap_bounded])
     return (
         "Decides the mechanism only: the TailCall handler pushes no frame (also transitively), truncates locals on every non-error path before "
         "pushing the new ones, overwrites the top frame in place with the same locals_base; frames are pushed at exactly three reviewed sites; "
